@@ -135,12 +135,12 @@ func (monC10) PostCall(s *Sim, c *Call) {
 	for _, want := range defaultDSTolerations {
 		found := false
 		for _, tol := range p.Spec.Tolerations {
-			if tol.Key == want.Key && tol.Operator == want.Operator && tol.Effect == want.Effect {
+			if tol.Key == want.Key && tol.Operator == want.Operator && tol.Effect == want.Effect && tol.Value == want.Value && tol.TolerationSeconds == nil {
 				found = true
 			}
 		}
 		if !found {
-			bad("tolerations", "default DaemonSet toleration %s:%s missing", want.Key, want.Effect)
+			bad("tolerations", "default DaemonSet toleration %s:%s (unbounded) missing", want.Key, want.Effect)
 		}
 	}
 	// resources
